@@ -458,9 +458,9 @@ pub fn substitute(target: &[R], args: &BTreeMap<String, ArgR>, at: &str) -> Resu
             },
             R::Comp { name, inner } => out.push(R::Comp { name: name.clone(), inner: substitute(inner, args, at)? }),
             R::Range { count, ty, branches } => {
-                // the `count` argument addresses the range's count, whatever it was renamed to before?
-                // The statement: "a literal count fixes the branch, a {{ var }} count renames the count".
-                match args.get("count") {
+                // an argument replaces "the variable of that name": the count variable is addressed by
+                // its current name (`count` unless an earlier reference renamed it)
+                match args.get(count.as_str()) {
                     None => {
                         let mut b2 = vec![];
                         for (c, v) in branches {
@@ -504,7 +504,7 @@ pub fn substitute(target: &[R], args: &BTreeMap<String, ArgR>, at: &str) -> Resu
                     }
                 }
             }
-            R::Plural { count, ordinal, locale, forms } => match args.get("count") {
+            R::Plural { count, ordinal, locale, forms } => match args.get(count.as_str()) {
                 None => {
                     let mut f2 = BTreeMap::new();
                     for (f, v) in forms {
